@@ -88,6 +88,9 @@ var fileMu sync.Mutex
 
 // Solve decides one obligation. Discharged = unsat (or sat for cover queries).
 func Solve(o *Obligation, opts solveOpts) {
+	if o.presolved {
+		return
+	}
 	fileMu.Lock()
 	fileCounter++
 	n := fileCounter
@@ -103,6 +106,25 @@ func Solve(o *Obligation, opts solveOpts) {
 			os.Remove(file)
 		}
 	}()
+	if o.Expect == "notunsat" {
+		to := opts.timeout
+		if to > 3*time.Second {
+			to = 3 * time.Second
+		}
+		st, out, el := runSolver(solvers[0], file, to, opts.seed)
+		if st != "unsat" && st != "error" {
+			st2, _, el2 := runSolver(solvers[1], file, to, opts.seed)
+			el += el2
+			if st2 == "unsat" {
+				st = "unsat"
+			}
+		}
+		o.Status, o.Solver, o.Ms = st, solvers[0].name, el.Milliseconds()
+		if st == "error" {
+			o.Model = firstLines(out, 3)
+		}
+		return
+	}
 	want := "unsat"
 	if o.Expect == "sat" {
 		want = "sat"
